@@ -187,8 +187,12 @@ def reference(prog, iso=True):
         na = ig.OPS[name][1]
         if name in ("sc", "scn", "SC", "SCN"):
             na = st["scs"] if name in ("SC", "SCN") else st["ncs"]
-        a = args[len(args) - na:] if na else []
-        del args[len(args) - na:]
+        # an operator takes the operands that are there, at most na of them (with fewer than na on the stack the slice
+        # start must not go negative: args[-1:] would take one operand and leave the others for the next operator --
+        # a false alarm of this oracle in the thorough tier on under-supplied SC/sc operators)
+        lo = max(0, len(args) - na)
+        a = args[lo:] if na else []
+        del args[lo:]
         f = [Fr(x) for x in a] if all(isinstance(x, (int, Fr)) for x in a) else None
         if name == "q":
             stack.append(dict(st))
